@@ -402,6 +402,12 @@ def body(ctx):
         ctx.count(("malformed", kind, n, m, eps), False, "ensrank/malformed/" + kind)
         if ierr == 0:
             ctx.finding("ensrank/accepts_invalid", "c_ensrank accepts eps < 1e-20 or an empty dimension", {"kind": kind, "n": n, "m": m, "eps": eps})
+        if kind.startswith("eps") and n >= 2 and m >= 2:
+            # dscore ignores the kernel's return code: the ranks stay 0 and the score is NaN (model: none)
+            obs = [float(v) for v in rng.sample(range(20), n)]
+            Dm = float(metrics.dscore(np.array(obs), sim, eps=eps))
+            add(f"dscore {C.f2h(eps)} {m} {C.flist(obs)} {rowstr(sim)}", "dscore", Dm,
+                {"obs": obs, "sim": sim.tolist(), "eps": eps, "gen": "malformed/" + kind})
 
     # ---------------- PIT
     for it in range(ctx.scale(600, 6000)):
